@@ -302,6 +302,7 @@ type l1Event struct {
 	Hex   string   `json:"hex"`
 	Draws []uint64 `json:"draws"`
 	Fseid uint64   `json:"fseid"`
+	Quiet bool     `json:"q"` // long soak histories: no decoded view, no dumps for this event
 }
 
 type l1World struct {
@@ -747,7 +748,9 @@ func (w *l1World) doEvent(ev l1Event) (obs map[string]interface{}) {
 			obs["draws"] = src.drawn
 			src.drawn = nil
 			src.queue = nil
-			obs["sem"] = l1Sem(raw, w.intern)
+			if !ev.Quiet {
+				obs["sem"] = l1Sem(raw, w.intern)
+			}
 			obs["connected"] = w.u.isConnected()
 		case "report":
 			if c, ok := w.conns[ev.Conn]; ok {
@@ -802,11 +805,18 @@ drain2:
 	}
 	obs["replies"] = replies
 	obs["cmds"] = w.srv.takeLog()
-	obs["tables"] = w.srv.snapshot()
-	obs["store"] = w.dumpStore()
-	obs["pools"] = w.dumpPools()
+	if ev.Quiet {
+		obs["cmds"] = len(obs["cmds"].([]l1Cmd))
+	} else {
+		obs["tables"] = w.srv.snapshot()
+		obs["store"] = w.dumpStore()
+		obs["pools"] = w.dumpPools()
+	}
 	markers := []interface{}{}
-	if w.b != nil && w.b.endMarkerChan != nil {
+	if w.b != nil && w.b.endMarkerChan != nil && !w.cfg.EndMarker {
+		// with end markers disabled the plug-in starts no sender: nobody drains the queue in production either
+		obs["em_queued"] = len(w.b.endMarkerChan)
+	} else if w.b != nil && w.b.endMarkerChan != nil {
 	drain:
 		for {
 			select {
